@@ -34,6 +34,8 @@ def value_kind(v):
         return "id"
     if isinstance(v, VRef):
         return "ref:" + v.cls
+    if isinstance(v, VReal):
+        return "real"
     return None
 
 
@@ -64,6 +66,8 @@ def _default(kind):
         return z3.Const("id_default", Id)
     if kind.startswith("ref"):
         return NULL
+    if kind == "real":
+        return z3.RealVal(0)
     raise Unsupported(kind)
 
 
@@ -370,6 +374,12 @@ def list_insert(eng, st, l, idx, val):
 def list_append(eng, st, l, val):
     rec = st.objs[l.oid]
     n, e = rec["len"], rec["elem"]
+    vk = value_kind(val)
+    if vk is not None and sort_of(vk) != e.sort().range() and z3.is_int_value(z3.simplify(n)) and z3.simplify(n).as_long() == 0:
+        # an empty list literal takes its element kind from the first element
+        st = st.updobj(l.oid, ekind=vk, elem=z3.K(I, _default(vk)))
+        rec = st.objs[l.oid]
+        n, e = rec["len"], rec["elem"]
     return [("ok", st.updobj(l.oid, len=n + 1, elem=z3.Store(e, n, unwrap(val, rec["ekind"]))), NONE)]
 
 
